@@ -272,7 +272,9 @@ The outcome of `fill` for a packaged crystal-system name does not depend on ANY 
 on `Path(system).exists()` (junk entries, a directory named like the system) nor on a regular file of that name
 (`c14_lookup_cwd_irrelevant_full`).  This became true with fix 6f0d09b: before it, `Path(system).is_file()` was tried
 before the packaged name, so a regular file called like the crystal system replaced the packaged relations (finding
-`cwd:regular-file-named-like-system`, found by this check; the witness below is kept as a regression theorem). -/
+`cwd:regular-file-named-like-system`, found by this check; the witness below is kept as a regression theorem).
+A string with a directory part (`./cubic`) is a PATH, not a system name: the file it names is used
+(`c14_lookup_path_with_directory_part_is_used`); packaged names have no directory part (`c14_lookup_packaged_names_are_bare`). -/
 
 /-- **lookup_cwd_irrelevant** (C09): `fill_cij` gives the same outcome whatever `Path(system).exists()` says in the
 working directory: it is never consulted. -/
@@ -303,6 +305,22 @@ theorem c14_user_file_is_used {α : Type} [Field α] [LinearOrder α] [IsStrictO
       | .error e => .error e
       | .ok sel => Fill.fillWith rows sel P t :=
   C09.user_file_used env sys rows e hp h P t
+
+/-- a string WITH a directory part (`./cubic`, `sub/cubic`, `/abs/cubic`) naming a readable file is used as the relations,
+whatever its base name — the working directory matters exactly through the file the PATH names (C09
+`path_with_directory_part_is_used`; fix of the finding `fill_cij(df, "./cubic")` used the packaged relations) -/
+theorem c14_lookup_path_with_directory_part_is_used {α : Type} [Field α] [LinearOrder α] [IsStrictOrderedRing α]
+    (env : Fill.Env) (sys : String) (rows : Fill.Rows) (hd : FillSource.hasDirPart sys = true)
+    (h : env.userFile sys = some rows) (P : Fill.Params α) (t : Fill.Table α) :
+    Fill.fill env (some sys) P t =
+      match Fill.recognise (t.map (·.1)) with
+      | .error e => .error e
+      | .ok sel => Fill.fillWith rows sel P t :=
+  (C09.path_with_directory_part_is_used env sys rows hd h P t).2
+
+/-- … and a packaged system name is a bare name (no directory part): the two statements never overlap -/
+theorem c14_lookup_packaged_names_are_bare (sys : String) (rows : Fill.Rows) (hp : Fill.packaged sys = .ok rows) :
+    FillSource.hasDirPart sys = false := FillSource.packaged_ok_bare hp
 
 /-- regression witness of the repaired finding: an (empty) file called `cubic` in the working directory no longer
 changes the outcome for the packaged system `cubic` -/
